@@ -12,12 +12,14 @@ pkg=$(head -1 $src/demo_test.go | sed -n 's#.*copy to: *\([^ ]*\).*#\1#p' | sed 
 [ -z "$pkg" ] && pkg=blockchain
 cp $src/demo_test.go $wt/$pkg/zz_seed_demo_test.go
 tests=$(grep -o '^func Test[A-Za-z0-9_]*' $src/demo_test.go | sed 's/func //' | paste -sd'|')
+cd $wt/$pkg
+clean=$(go test -count=1 -run "^($tests)\$" . 2>&1 | tail -1)
 cd $wt
-clean=$(go test -count=1 -run "^($tests)\$" ./$pkg/ 2>&1 | tail -1)
 git apply $src/patch.diff 2>/dev/null || { echo "$name: PATCH DOES NOT APPLY"; cd /; git -C /repo worktree remove --force $wt; exit 1; }
+cd $wt/$pkg
 build=$(go build ./... 2>&1 | tail -1)
-mut=$(go test -count=1 -run "^($tests)\$" ./$pkg/ 2>&1 | tail -1)
-rm -f $pkg/zz_seed_demo_test.go
-suite=$(go test -count=1 -skip 'TestFlushOnPrune|TestInitConsistentState' ./$pkg/ 2>&1 | tail -1)
+mut=$(go test -count=1 -run "^($tests)\$" . 2>&1 | tail -1)
+rm -f zz_seed_demo_test.go
+suite=$(go test -count=1 -skip 'TestFlushOnPrune|TestInitConsistentState' . 2>&1 | tail -1)
 echo "$name: clean=[$clean] build=[${build:-ok}] mutated=[$mut] suite=[$suite]"
 cd /; git -C /repo worktree remove --force $wt
